@@ -3,5 +3,6 @@ package props
 
 import (
 	_ "verif/props/c01"
+	_ "verif/props/c06"
 	_ "verif/props/c09"
 )
